@@ -40,6 +40,20 @@ impl NewReno {
     }
 }
 
+#[cfg(feature = "quinn_rs_quinn_verif")]
+impl NewReno {
+    /// (window, ssthresh, recovery_start_time, bytes_acked, current_mtu)
+    pub(crate) fn verif_state(&self) -> (u64, u64, Instant, u64, u64) {
+        (
+            self.window,
+            self.ssthresh,
+            self.recovery_start_time,
+            self.bytes_acked,
+            self.current_mtu,
+        )
+    }
+}
+
 impl Controller for NewReno {
     fn on_ack(
         &mut self,
